@@ -166,7 +166,7 @@ func (s *Solver) Check(asserts []*term.T, wantModel bool) (Result, *term.Model) 
 	open := "(push 1)\n"
 	if s.Kind == Z3 || s.Kind == Z3New {
 		// z3 switches to a much weaker incremental core after push; start every query from a clean state instead
-		open = "(reset)\n(set-option :print-success false)\n(set-option :produce-models true)\n"
+		open = fmt.Sprintf("(reset)\n(set-option :print-success false)\n(set-option :produce-models true)\n(set-option :timeout %d)\n", s.TimeoutMs)
 	}
 	lines, err := s.roundTrip(open + sc.Text + "(check-sat)\n")
 	if err != nil {
@@ -388,8 +388,12 @@ type Portfolio struct {
 
 func NewPortfolio(timeoutMs int, kinds ...Kind) *Portfolio {
 	p := &Portfolio{}
-	for _, k := range kinds {
-		p.Solvers = append(p.Solvers, New(k, timeoutMs))
+	for i, k := range kinds {
+		ms := timeoutMs
+		if i == 0 && len(kinds) > 1 && ms > 1500 {
+			ms = 1500 // first stage: fast solver with a short limit, the rest get the full limit
+		}
+		p.Solvers = append(p.Solvers, New(k, ms))
 	}
 	return p
 }
